@@ -188,14 +188,40 @@ Lemma pipe_target_ok f pp : pipe_ok f pp ->
   target_ok D b0 f (removelast (comps (pp_path pp))) (last (comps (pp_path pp)) []).
 Proof. intros (_ & _ & _ & F & _) dd i Hw Hb. left. apply (F dd i Hw Hb). Qed.
 
-Lemma recv_data_inv idx id d st acc : GInv st acc -> GInv (recv_data c idx id d st) acc.
+Definition DQ (st st' : rstate) (acc : list vitem) : Prop :=
+  GInv st' acc /\ step TNone b0 (r_fs st) (r_fs st') /\ (live st' = true -> live st = true).
+
+Lemma DQ_quiet st st' acc :
+  GInv st acc -> step TNone b0 (r_fs st) (r_fs st') -> same_core st st' ->
+  (live st' = true -> live st = true) ->
+  (forall id pp, In (id, pp) (r_pipes st') -> In (pp_path pp) (accpaths acc) /\ pipe_ok (r_fs st') pp) ->
+  DQ st st' acc.
+Proof.
+  intros G S C Hl Hp. split; [|split; auto]. apply (GInv_quiet st st' acc b0 G); auto. unfold b0. lia.
+Qed.
+
+Lemma DQ_stop st acc o : GInv st acc -> o <> Running -> DQ st (set_out st o) acc.
+Proof.
+  intros G Ho. split; [apply GInv_stop; auto|]. split.
+  - simpl. apply step_same; [apply (g_wf st acc (proj1 G))|apply (g_next st acc (proj1 G))].
+  - rewrite (live_set_out st o Ho). discriminate.
+Qed.
+
+Lemma DQ_same st acc : GInv st acc -> DQ st st acc.
+Proof. intros G. split; auto. split; auto. apply step_same; [apply (g_wf st acc (proj1 G))|apply (g_next st acc (proj1 G))]. Qed.
+
+Lemma DQ_via st st1 st' acc : r_fs st1 = r_fs st -> live st1 = live st -> DQ st1 st' acc -> DQ st st' acc.
+Proof. intros E E2 (A & B & C). split; auto. rewrite <- E, <- E2. auto. Qed.
+
+Lemma recv_data_dq idx id d st acc : GInv st acc -> DQ st (recv_data c idx id d st) acc.
 Proof.
   intros G. unfold recv_data.
-  destruct (alookup id (r_pipes st)) as [pp|] eqn:Ea; [|apply GInv_stop; [auto|discriminate]].
-  destruct (pp_closed pp); [apply GInv_stop; [auto|discriminate]|].
-  destruct (spend st) as [st1|] eqn:Es; [|apply GInv_stop; [auto|discriminate]].
+  destruct (alookup id (r_pipes st)) as [pp|] eqn:Ea; [|apply DQ_stop; [auto|discriminate]].
+  destruct (pp_closed pp); [apply DQ_stop; [auto|discriminate]|].
+  destruct (spend st) as [st1|] eqn:Es; [|apply DQ_stop; [auto|discriminate]].
   pose proof (GInv_spend st st1 acc G Es) as G1.
-  destruct (spend_core st st1 Es) as (Ef & _ & _ & Ep & _).
+  destruct (spend_core st st1 Es) as (Ef & _ & El & Ep & _).
+  apply (DQ_via st st1 _ acc Ef El).
   assert (Hin : In (id, pp) (r_pipes st1)) by (rewrite Ep; apply alookup_In; auto).
   destruct (g_pipes st1 acc (proj1 G1) id pp Hin) as [Hacc Hpo].
   pose proof (g_wf st1 acc (proj1 G1)) as W1. pose proof (g_next st1 acc (proj1 G1)) as Hb1.
@@ -207,8 +233,8 @@ Proof.
   destruct (is_nil d).
   - (* end of the file *)
     destruct (r_asyncerr st1).
-    + destruct (pp_fd pp) eqn:Efd; [|exact G1].
-      apply (GInv_quiet st1 _ acc b0 G1); try (unfold b0; lia).
+    + destruct (pp_fd pp) eqn:Efd; [|apply DQ_same; exact G1].
+      apply (DQ_quiet st1 _ acc G1).
       * simpl. apply step_same; auto.
       * repeat split.
       * auto.
@@ -237,7 +263,7 @@ Proof.
       destruct (if is_err r1 then (f1, r1) else sys_utimens c f1 (pp_path pp) (st_mtime (pp_stat pp))) as [f2 r2].
       cbn [fst] in S2.
       pose proof (step_trans D TNone b0 _ _ _ S1 S2) as S12.
-      apply (GInv_quiet st1 _ acc b0 G1); try (unfold b0; lia); simpl; auto.
+      apply (DQ_quiet st1 _ acc G1); simpl; auto.
       * repeat split.
       * intros id' pp' Hin'. apply filter_In in Hin'. destruct Hin' as [Hin' _].
         destruct (g_pipes st1 acc (proj1 G1) id' pp' Hin') as [A B]. split; auto.
@@ -263,7 +289,7 @@ Proof.
       { pose proof (reach_lt D f0 D W0 (reach_refl D f0)). unfold b0 in Hbi. lia. }
       pose proof (fd_pwrite_step D TNone b0 (r_fs st1) i (pp_off pp) d W1 Hb1 Hlt HiD Hbi) as S.
       destruct (fd_pwrite (r_fs st1) i (pp_off pp) d) as [f2 r2]. cbn [fst] in S.
-      apply (GInv_quiet st1 _ acc b0 G1); try (unfold b0; lia); simpl; auto.
+      apply (DQ_quiet st1 _ acc G1); simpl; auto.
       * repeat split.
       * intros id' pp' Hin'. apply aset_In in Hin'. destruct Hin' as [E|Hin'].
         -- inversion E; subst. split; auto.
@@ -273,11 +299,16 @@ Proof.
            pose proof (st_next _ _ _ _ _ S). lia.
         -- destruct (g_pipes st1 acc (proj1 G1) id' pp' Hin') as [A B]. split; auto.
            apply (quiet_pipe_ok b0 (r_fs st1) f2 pp' W1 S B).
-    + destruct r; try (exfalso; eapply Hr; reflexivity);
-        (apply GInv_stop; [|discriminate]);
-        (apply (GInv_quiet st1 _ acc b0 G1); try (unfold b0; lia); simpl; auto;
-         [apply step_same; auto|repeat split|apply (proj1 G1)]).
+    + assert (Gu : GInv (upd st1 (r_fs st1)) acc).
+      { apply (GInv_quiet st1 _ acc b0 G1); try (unfold b0; lia); simpl; auto;
+          [apply step_same; auto|repeat split|apply (proj1 G1)]. }
+      destruct r; try (exfalso; eapply Hr; reflexivity);
+        (split; [apply GInv_stop; [exact Gu|discriminate]|split; [simpl; apply step_same; auto|
+          intros L'; rewrite live_set_out in L'; [discriminate|discriminate]]]).
 Qed.
+
+Lemma recv_data_inv idx id d st acc : GInv st acc -> GInv (recv_data c idx id d st) acc.
+Proof. intros G. apply (recv_data_dq idx id d st acc G). Qed.
 
 
 (* ---------------- DiskWriter.Wait: mtimes of the directories the transfer made ---------------- *)
